@@ -392,3 +392,40 @@ def check_atom_tables(ctx, rule):
         ctx.bad(rule, 'atom-intern-tables', 'COMMON_ATOMS lists %s twice' % dup, key='TABLE:erltf::types::COMMON_ATOMS:duplicate')
     else:
         ctx.ok(rule, 'atom-intern-tables', 'all %d entries of COMMON_ATOMS point at the CACHED_ATOMS entry with the same text' % len(pairs), ctx.where(ctx.P.B('erltf::types::COMMON_ATOMS')))
+
+
+# ------------------------------------------------------------------- identifier fields verbatim ----
+def check_identifier_fields_verbatim(ctx, rule):
+    """The numbers of a pid / port / reference are opaque to the receiver: every parser hands the integers it read
+    to the constructor unchanged (widening casts only). Masking, shifting or any arithmetic maps distinct identifiers
+    of the peer onto one local value."""
+    from .ranges import canon
+    from .families import describe
+    P = ctx.P
+    ctors = ('erltf::types::ExternalPid::new', 'erltf::types::ExternalPort::new', 'erltf::types::ExternalReference::new')
+    n = 0
+    for p in sorted(q for q in ctx.F.bodies if q.startswith(DEC) and ctx.F.bodies[q]['kind'] in ('Fn', 'Closure')):
+        B = P.B(p)
+        for bb, t in B.calls():
+            g = callee_of(t)[0]
+            if g not in ctors:
+                continue
+            n += 1
+            inst = '%s:%s' % (p.rsplit('::', 1)[1], g.rsplit('::', 2)[-2])
+            changed = []
+            for i, a in enumerate(t['args']):
+                ty = (t.get('aty') or [''] * 9)[i] if i < len(t.get('aty') or []) else ''
+                if ty not in ('u8', 'u16', 'u32', 'u64'):
+                    continue
+                c = canon(B, a)
+                cur = c
+                while isinstance(cur, tuple) and cur and cur[0] == 'cast':
+                    cur = cur[-1] if isinstance(cur[-1], tuple) else cur[1]
+                if isinstance(cur, tuple) and cur and cur[0] in ('bin', 'un'):
+                    changed.append((i, describe(B, c)))
+            if changed:
+                ctx.bad(rule, inst, 'argument(s) %s of the constructor are computed from the wire value (%s) instead of being passed on unchanged: identifiers of the peer that differ in the dropped bits become the same local identifier'
+                        % ([i for i, _ in changed], '; '.join(d for _, d in changed)), ctx.where(B, bb), key='PROV:%s:identifier-field-modified' % p)
+            else:
+                ctx.ok(rule, inst, 'integers read from the wire reach the constructor unchanged', ctx.where(B, bb))
+    return n
